@@ -166,6 +166,15 @@ def check_append(ctx):
             compare(ctx, 'C17.3', f"append_one_sample (make_periodic={mp}): y gains its {'first' if mp else 'last'} value", res.items[1], wy, fi, f"append:y:{mp}")
         else:
             ctx.fail('C17.3', 'append_one_sample returns (x, y)', show(res, 200), fi.loc(), fi.qualname, f"append:pair:{mp}")
+    # the flag is used as a truth value (numpy.bool_, 1, ... count as true): no identity / equality comparison with a literal
+    flag = Term('param', (Const('make_periodic'),))
+    ev = Evaluator(ctx.prog, opaque_kind=REPO_RESULT_KIND)
+    res, st = ev.run_function(fi, args={'x': x, 'y': y, 'make_periodic': flag})
+    preds = [t for v in [res] + [g for e in ev.events for g in e.guard] for t in walk_vals(v) if isinstance(t, P) and any(veq(u, flag) for u in walk_vals(t))]
+    leaves = [t for t in preds if t.op not in ('not', 'and', 'or')]
+    odd = sorted({str(t) for t in leaves if not (t.op == 'truthy' and veq(t.args[0], flag))})
+    ctx.check(bool(leaves) and not odd, 'C17.3', 'append_one_sample: make_periodic is used as a truth value (any true value selects the periodic continuation)',
+              f"tests on the flag: {odd or [str(t) for t in leaves][:3]}", fi.loc(), fi.qualname, 'append:truthy')
     ar = fi.node.args
     d = dict(zip(fi.params()[len(fi.params()) - len(ar.defaults):], ar.defaults)).get('make_periodic')
     ctx.check(isinstance(d, ast.Constant) and d.value is False, 'C17.3', 'append_one_sample: make_periodic defaults to False', '', fi.loc(), fi.qualname, 'append:default')
